@@ -398,3 +398,58 @@ theorem runD_ok (alg : Alg V A) (s : Oracle V A × Disk V A) (ops : List Op) (h 
 end Core
 #print axioms Core.step_crash_points
 #print axioms Core.runD_ok
+
+namespace Core
+variable {V A : Type}
+
+/-- every loaded trial has the values and the run count of the trial in memory, running or not -/
+theorem loadTrials_vals (o : Oracle V A) (d : Disk V A) (hd : DiskOK o d) :
+    ∀ k, k ≤ o.trials.length → ∀ l, loadTrials d (o.trials.map (·.runs)) k = some l →
+      ∀ (j : Nat), j < k → ∀ tj, o.trials[j]? = some tj →
+        ∃ t', l[j]? = some t' ∧ t'.vals = tj.vals ∧ t'.runs = tj.runs := by
+  intro k
+  induction k with
+  | zero => intro _ l _ j hj; omega
+  | succ k ih =>
+    intro hk l hl j hj tj htj
+    simp only [loadTrials] at hl
+    cases hprev : loadTrials d (o.trials.map (·.runs)) k with
+    | none => simp [hprev] at hl
+    | some lp =>
+      cases hfk : d.tfile k with
+      | none => simp [hprev, hfk] at hl
+      | some fk =>
+        simp only [hprev, hfk, Option.some.injEq] at hl
+        subst hl
+        obtain ⟨lq, hlq, hlenq, _⟩ := loadTrials_spec o d hd k (by omega)
+        rw [hprev] at hlq; cases hlq
+        by_cases hjk : j < k
+        · rw [List.getElem?_append_left (by omega)]
+          exact ih (by omega) lp hprev j hjk tj htj
+        · have : j = k := by omega
+          subst this
+          obtain ⟨f, hf, hv, _⟩ := hd.tfiles j tj htj
+          rw [hfk] at hf; cases hf
+          refine ⟨trialOfFile fk ((o.trials.map (·.runs)).getD j 0), ?_, hv, ?_⟩
+          · rw [List.getElem?_append_right (by omega), hlenq]; simp
+          · simp [trialOfFile, List.getD, List.getElem?_map, htj]
+
+/-- **resume**: with one trial in hand when the process stopped (at any crash point whose disk is
+    consistent), the restarted oracle hands out that same trial — same id, same values — first -/
+theorem resume_reissues_interrupted (alg : Alg V A) (o cfg : Oracle V A) (d : Disk V A) (h : Inv o) (hd : DiskOK o d)
+    (hcfg : cfg.maxTrials = o.maxTrials ∧ cfg.maxRetries = o.maxRetries ∧ cfg.maxConsec = o.maxConsec ∧ cfg.aborted = o.aborted)
+    (tuner id : Nat) (t : Trial V) (hon : o.ongoing = [(tuner, id)]) (ht : o.trials[id]? = some t) (tuner' c : Nat) :
+    ∃ r, reload cfg d = some r ∧ (create alg r tuner' c).2 = .trial id t.vals ∧
+      r.trials.length = o.trials.length := by
+  obtain ⟨a, ha⟩ := hd.ofile
+  obtain ⟨ts, hts, hlen, hsame⟩ := loadTrials_spec o d hd o.trials.length (Nat.le_refl _)
+  have hid : id < o.trials.length := (List.getElem?_eq_some_iff.mp ht).1
+  obtain ⟨t', ht', hv, _⟩ := loadTrials_vals o d hd o.trials.length (Nat.le_refl _) ts hts id hid t ht
+  refine ⟨{ cfg with trials := ts, ongoing := [], retryQ := o.retryQ ++ o.ongoing.map (·.2),
+                     endOrder := o.endOrder, tunerIds := [], alg := a }, ?_, ?_, by simp [hlen]⟩
+  · simp only [reload, ha, ofileOf, hts]
+  · have hq : (o.retryQ ++ o.ongoing.map (·.2)).getLast? = some id := by simp [hon]
+    simp [create, holds, hq, ht', hv]
+
+end Core
+#print axioms Core.resume_reissues_interrupted
